@@ -25,11 +25,6 @@ theorem applyWs_delRecords (l : List Record) (p : P) :
     · have h' : ¬ r.start = a.start := fun e => h e.symm
       simp [h, h']
 
-/-- the rollback point of the fork handling -/
-def forkRb (p : P) (f : Nat) : Nat :=
-  (match (p.records.filter (fun r => r.start ≤ f)).getLast? with
-    | some r => r.start | none => f) + 1
-
 theorem forkRb_le (p : P) (f : Nat) : forkRb p f ≤ f + 1 := by
   unfold forkRb
   cases h : (p.records.filter (fun r => r.start ≤ f)).getLast? with
@@ -49,7 +44,14 @@ theorem forkRb_pos (p : P) (f : Nat) : 1 ≤ forkRb p f := by
 theorem applyWs_forkWrites (p : P) (f : Nat) :
     applyWs p (forkWrites p f) =
       applyW { p with records := p.records.filter (fun r => r.start ≤ f) } (.rollback (forkRb p f) (forkRb p f - 1)) := by
-  unfold forkWrites
+  rfl
+
+/-- the fork handling before the repair (record deletions one by one, then the rollback batch)
+ended in the same store -/
+theorem applyWs_oldForkWrites (p : P) (f : Nat) :
+    applyWs p (oldForkWrites p f) =
+      applyW { p with records := p.records.filter (fun r => r.start ≤ f) } (.rollback (forkRb p f) (forkRb p f - 1)) := by
+  unfold oldForkWrites
   simp only
   unfold applyWs
   rw [List.foldl_append]
@@ -73,6 +75,5 @@ theorem applyWs_forkWrites (p : P) (f : Nat) :
         List.mem_filter, decide_eq_true_eq]
       exact ⟨r, ⟨hr, by omega⟩, rfl⟩
   rw [hf]
-  rfl
 
 end Sync
